@@ -162,4 +162,35 @@ theorem snf_terminates (dbg : Bool) (pre : St Int m n → Res (St Int m n)) (A :
     (hpre : pre (St.init intOps.toROps A) ≠ .err) :
     ∃ N, ∀ fuel, N ≤ fuel → snfCalc intOps dbg pre fuel A ≠ .err := snfCalc_exists_fuel dbg pre A hpre
 
+/-! ### (T′) totality: over ℤ no assertion of `snf.rs` can fire -/
+
+/-- `eliminate_at` on a non-zero pivot never panics: the `debug_assert!((a*d - b*c).is_one())` of
+`left/right_elementary` hold (Bézout), and `assert!(modified)` cannot fire while the loop condition is true -/
+theorem eliminateAt_never_panics (dbg : Bool) (i : Fin m) (j : Fin n) (fuel : Nat) (s : St Int m n)
+    (hp : s.t.get i j ≠ 0) : eliminateAt intOps dbg i j fuel s ≠ .panic := eliminateAt_ne_panic dbg i j fuel s hp
+
+/-- over ℤ the code model of `SnfCalc::process` never panics unless the preprocessing does: `mul_row/mul_col` are
+only called with `±1`, `eliminate_at` only on a non-zero pivot, `diag_normalize` only on a diagonal matrix (its
+`debug_assert!(is_diag)`) and `diag_normalize_step` only on non-zero entries -/
+theorem snf_never_panics (dbg : Bool) (pre : St Int m n → Res (St Int m n)) (fuel : Nat) (A : Mat Int m n)
+    (hpre : pre (St.init intOps.toROps A) ≠ .panic) : snfCalc intOps dbg pre fuel A ≠ .panic :=
+  snfCalc_ne_panic dbg pre fuel A hpre
+
+/-- **snf_total** (ℤ) — if the preprocessing returns, there are a fuel bound `N` and a state `s` such that the code
+model returns exactly `s` for every `fuel ≥ N` -/
+theorem snf_total (dbg : Bool) (pre : St Int m n → Res (St Int m n)) (A : Mat Int m n) (s1 : St Int m n)
+    (hpre : pre (St.init intOps.toROps A) = .ok s1) :
+    ∃ N s, ∀ fuel, N ≤ fuel → snfCalc intOps dbg pre fuel A = .ok s := snfCalc_total dbg pre A s1 hpre
+
+/-- everything together for the model the driver runs (identity preprocessing, debug build): with enough fuel it
+returns a state with `D = P·A·Q`, `P·P⁻¹ = Q·Q⁻¹ = I`, and `D` in Smith normal form -/
+theorem snf_total_correct (A : Mat Int m n) :
+    ∃ N s, (∀ fuel, N ≤ fuel → snfCalc intOps true (fun s => .ok s) fuel A = .ok s) ∧
+      (toM id s.p * toM id A * toM id s.q = toM id s.t ∧ toM id s.p * toM id s.pinv = 1 ∧
+        toM id s.q * toM id s.qinv = 1) ∧
+      (∀ (i : Fin m) (j : Fin n), i.1 ≠ j.1 → s.t.get i j = 0) ∧
+      ShapeSpec (fun x : Int => 0 ≤ x) (diagL s.t) := by
+  obtain ⟨N, s, h⟩ := snfCalc_total true (fun s => .ok s) A _ rfl
+  exact ⟨N, s, h, snf_correct N A s (h N (Nat.le_refl _))⟩
+
 end Yuiv.C09
